@@ -1798,10 +1798,18 @@ class FnBounds(object):
             return self.flush_pending(st)
         if k in ("CXXMemberCallExpr",):
             st = self.member_call(n, st, pos)
-            return self.flush_pending(st)
+            st = self.flush_pending(st)
+            # a guard helper (`if (!C) throw` and nothing else) returns normally only when C holds
+            for c_, pol_ in cond.call_guards(f, n, self.db):
+                st = self.assume(st, c_, pol_)
+            return st
         if k in ("CallExpr", "CXXConstructExpr", "CXXTemporaryObjectExpr", "CXXNewExpr"):
             st = self.plain_call(n, st, pos)
-            return self.flush_pending(st)
+            st = self.flush_pending(st)
+            if k == "CallExpr":
+                for c_, pol_ in cond.call_guards(f, n, self.db):
+                    st = self.assume(st, c_, pol_)
+            return st
         if k == "CXXOperatorCallExpr":
             if n.get("op") == "[]" and len(n.get("c", [])) == 3:
                 par = self.g.parent.get(n["id"])
